@@ -67,6 +67,7 @@ class Ctx(object):
         self.specfun_decl = {}
         self.notes = []
         self.inputs = {}         # model extraction: label -> value structure
+        self.heap_bound = {}     # heap constant name -> alloc counter bounding every address stored in it
 
     def fresh(self, prefix, sort):
         n = self.counter.get(prefix, 0)
@@ -211,14 +212,86 @@ class Exec(object):
     # ------------------------------------------------------------------ heap access
     def heap_get(self, st, name, sort):
         h = st.heap.get(name)
+        if h is None and name.startswith('INIT:'):
+            h = constarr(arr(ARR_IB), constarr(ARR_IB, TRUE))
+            st.heap[name] = h
+            if self.old is not None and name not in self.old.heap:
+                self.old.heap[name] = h
+            return h
         if h is None:
             h = self.ctx.declare_const('H0:' + name, sort)
+            self.ctx.heap_bound[h.val] = self.alloc0
             st.heap[name] = h
             if self.old is not None and name not in self.old.heap:
                 self.old.heap[name] = h
             if name.startswith('INIT:'):
                 pass
         return h
+
+    def base_consts(self, h, acc=None):
+        if acc is None:
+            acc = []
+        if h.op == 'const':
+            acc.append(h)
+        elif h.op == 'store':
+            self.base_consts(h.args[0], acc)
+        elif h.op == 'ite':
+            self.base_consts(h.args[1], acc)
+            self.base_consts(h.args[2], acc)
+        return acc
+
+    def valid_scalar_heap(self, h, tid, two_level):
+        """range axiom for every base constant of heap term h holding values of sized int type tid"""
+        rng = self.prog.int_range(tid) if self.kind(tid) == 'basic' else None
+        isaddr = self.kind(tid) == 'pointer'
+        if not rng and not isaddr:
+            return
+        for b in self.base_consts(h):
+            key = ('valid', b.val)
+            if key in self.ctx.assumptions:
+                continue
+            self.ctx.assumptions.add(key)
+            a, k = const('a!', INT), const('k!', INT)
+            if two_level:
+                v = select(select(b, a), k)
+                vs = [a, k]
+            else:
+                v = select(b, a)
+                vs = [a]
+            if rng:
+                if rng[1] > 2 ** 62:
+                    continue
+                self.ctx.assume(forall(vs, and_(le(I(rng[0]), v), le(v, I(rng[1]))), [v]))
+            else:
+                bound = self.ctx.heap_bound.get(b.val)
+                self.ctx.assume(forall(vs, and_(le(ZERO, v), lt(v, bound)) if bound is not None else le(ZERO, v), [v]))
+
+    def valid_header_heaps(self, st, hs, is_slice):
+        """hs: dict part->heap term for a slice/string header stored in field heaps"""
+        bases = {}
+        for part, h in hs.items():
+            bs = self.base_consts(h)
+            if len(bs) != 1 or h.op != 'const':
+                return
+            bases[part] = bs[0]
+        key = ('validhdr',) + tuple(sorted((p, b.val) for p, b in bases.items()))
+        if key in self.ctx.assumptions:
+            return
+        self.ctx.assumptions.add(key)
+        p = const('p!', INT)
+        g = lambda part: select(bases[part], p)
+        if is_slice:
+            body = and_(le(ZERO, g('arr')), le(ZERO, g('off')), le(ZERO, g('len')), le(g('len'), g('cap')), le(add(g('off'), g('cap')), I(MAXLEN)),
+                        implies(eq(g('arr'), ZERO), eq(g('cap'), ZERO)))
+        else:
+            body = and_(le(ZERO, g('arr')), le(ZERO, g('off')), le(ZERO, g('len')), le(add(g('off'), g('len')), I(MAXLEN)))
+        bound = self.ctx.heap_bound.get(bases['arr'].val)
+        if bound is not None:
+            body = and_(body, lt(g('arr'), bound))
+        self.ctx.assume(forall([p], body, [g('len')]))
+        self.ctx.assume(forall([p], body, [g('arr')]))
+        if is_slice:
+            self.ctx.assume(forall([p], body, [g('cap')]))
 
     def hs_name(self, etid):
         return 'HS:' + self.elem_key(etid)
@@ -236,6 +309,7 @@ class Exec(object):
         k = self.kind(etid)
         if self.is_scalar(etid):
             h = self.heap_get(st, self.hs_name(etid), self.hs_sort(etid))
+            self.valid_scalar_heap(h, etid, True)
             v = select(select(h, arr_), absidx)
             return self.wrap_scalar(v, etid, st)
         # aggregate element: object at elem address
@@ -308,13 +382,19 @@ class Exec(object):
         path = path or fname
         k = self.kind(ftid)
         if self.is_string(ftid):
-            g = lambda s: select(self.field_heap(st, stid, path + '.' + s, INT), p)
+            hs = dict((s, self.field_heap(st, stid, path + '.' + s, INT)) for s in ('arr', 'off', 'len'))
+            self.valid_header_heaps(st, hs, False)
+            g = lambda s: select(hs[s], p)
             return StrV(g('arr'), g('off'), g('len'))
         if self.is_scalar(ftid):
-            v = select(self.field_heap(st, stid, path, self.sort_of(ftid)), p)
+            h = self.field_heap(st, stid, path, self.sort_of(ftid))
+            self.valid_scalar_heap(h, ftid, False)
+            v = select(h, p)
             return self.wrap_scalar(v, ftid, st)
         if k == 'slice':
-            g = lambda s: select(self.field_heap(st, stid, path + '.' + s, INT), p)
+            hs = dict((s, self.field_heap(st, stid, path + '.' + s, INT)) for s in ('arr', 'off', 'len', 'cap'))
+            self.valid_header_heaps(st, hs, True)
+            g = lambda s: select(hs[s], p)
             return SliceV(g('arr'), g('off'), g('len'), g('cap'), self.U(ftid)['elem'])
         if k == 'struct':
             return self.obj_load(st, ftid, self.subaddr(stid, path, p))
@@ -350,14 +430,19 @@ class Exec(object):
         """load a whole object of type tid stored at address p"""
         k = self.kind(tid)
         if self.is_string(tid):
-            g = lambda s: select(self.heap_get(st, 'HF:string.' + s, ARR_II), p)
+            hs = dict((s, self.heap_get(st, 'HF:string.' + s, ARR_II)) for s in ('arr', 'off', 'len'))
+            self.valid_header_heaps(st, hs, False)
+            g = lambda s: select(hs[s], p)
             return StrV(g('arr'), g('off'), g('len'))
         if self.is_scalar(tid):
             h = self.heap_get(st, 'HB:' + self.elem_key(tid), arr(self.sort_of(tid)))
+            self.valid_scalar_heap(h, tid, False)
             return self.wrap_scalar(select(h, p), tid, st)
         if k == 'slice':
             nm = 'HF:' + self.prog.short(tid) + '.'
-            g = lambda s: select(self.heap_get(st, nm + s, ARR_II), p)
+            hs = dict((s, self.heap_get(st, nm + s, ARR_II)) for s in ('arr', 'off', 'len', 'cap'))
+            self.valid_header_heaps(st, hs, True)
+            g = lambda s: select(hs[s], p)
             return SliceV(g('arr'), g('off'), g('len'), g('cap'), self.U(tid)['elem'])
         if k == 'struct':
             return StructV(tid, dict((f['name'], self.field_load(st, tid, p, f['name'], f['type'])) for f in self.struct_fields(tid)))
@@ -744,7 +829,10 @@ class Exec(object):
         by_heap = {}
         anything = False
         for r in regions:
-            if r[0] == 'slice':
+            if r[0] == 'initbits':
+                self.heap_get(st, 'INIT:' + r[1], arr(ARR_IB))
+                by_heap.setdefault('INIT:' + r[1], []).append(r)
+            elif r[0] == 'slice':
                 by_heap.setdefault('HS:' + r[1], []).append(r)
                 if self.track_init and ('INIT:' + r[1]) in st.heap:
                     by_heap.setdefault('INIT:' + r[1], []).append(r)
@@ -761,6 +849,7 @@ class Exec(object):
             for name in list(st.heap):
                 old = st.heap[name]
                 st.heap[name] = c.fresh(tag + ':' + name, old.sort)
+                c.heap_bound[st.heap[name].val] = st.alloc
             return
         for name, rs in by_heap.items():
             old = self.heap_get(st, name, None) if name in st.heap else None
@@ -768,6 +857,7 @@ class Exec(object):
                 continue
             new = c.fresh(tag + ':' + name, old.sort)
             st.heap[name] = new
+            c.heap_bound[new.val] = st.alloc
             if name.startswith(('HS:', 'INIT:')):
                 a, k = const('a!', INT), const('k!', INT)
                 inreg = or_(*[and_(eq(a, r[2]), le(r[3], k), lt(k, r[4])) for r in rs])
